@@ -224,6 +224,11 @@ pub fn seeds(tier: Tier) -> Vec<(Seed, Level)> {
     for (pre, s) in context_variants() {
         out.push((mutate::seed(&s.id, &pre, &s.inst, &[after.clone()]), Level::Framing));
     }
+    // id-relation sequences: values typed by values, rings of ids, types declared after their use, then a consumer
+    for (n, v) in universe::id_relation_sequences(2) {
+        let (pre, last) = v.split_at(v.len() - 1);
+        out.push((mutate::seed(&format!("id-relations:{}", n), pre, &last[0], &[]), Level::Framing));
+    }
     // U-scale: very long instructions (strings, operand lists) with the few corruptions that matter at that size
     for s in universe::scale_shapes(tier) {
         out.push((mutate::seed(&s.id, &[cap.clone()], &s.inst, &[after.clone()]), Level::Scale));
